@@ -36,6 +36,19 @@ import (
 //             also the other way round, and all of them waiting for each other).
 // integrated: after a peer's discovery reply the application handler of DeviceChange/add must find the
 //             NodeManagement subscription call and the use-case read on that peer's tap already written.
+//             The ordering the statement demands: core-level handlers run to completion before the publication
+//             returns and before any application-level handler of the same event is entered. The stack's own
+//             core-level handler of DeviceChange/add is DeviceLocal.HandleEvent; its work is observable as two
+//             writes to the announcing peer's connection. Judged on logged order (rig.Seq): both writes have
+//             RETURNED (a) before the first application-level handler of that DeviceChange/add is entered and
+//             (b) before DeviceRemote.HandleSpineMesssage returns for the discovery reply (the publication
+//             happens inside it). To make that deciding the connection writer is slow (0-2 ms) and, in 60% of the
+//             rounds, does not return from the write of the subscription call and/or the use-case read until the
+//             case opens a gate: while the write is parked the core-level handler has not finished, so neither
+//             may an application handler run nor the processing return; the case holds the write until the process
+//             is quiet except for the parked goroutine (sequential cases) or for a moment (concurrent cases), which
+//             is pacing only - the verdict compares the logged Seq of "write complete" with "handler entered" and
+//             "processing returned".
 //
 // The bus is process-global: foreign handlers (the World's core sink, DeviceLocal) stay subscribed and
 // simply ignore the tokens; spine.VerifHandlerCount is only recorded.
@@ -54,7 +67,7 @@ func init() {
 		Rule: "bus: case = one generated history (sequential prologue, 1-4 concurrent publisher goroutines with 20-60 operations, sequential epilogue with unsubscribe-then-publish) plus one re-entrant action per (handler, event) slot, all drawn from the case PRNG; " +
 			"every second case ends with a mutual-wait stage (1-2 rounds): the application handlers are unsubscribed and subscribed anew in a drawn order (2 or 3 of them), then one event is published during which an earlier subscribed application handler stays inside HandleEvent until a later subscribed one has entered HandleEvent for the same event (bounded wait; first round: that, or all of them wait for all the others; second round also a later subscribed one waiting for an earlier one); " +
 			"non-trivial if at least one exactly-once pair, one zero pair (unsubscribed before the publication) and one re-entrant action inside a handler were judged. " +
-			"integrated: case = 1-3 peers announcing (concurrently in half of the cases), some after a reconnect; non-trivial if every DeviceChange/add reached the application handler and the two datagrams were compared. " +
+			"integrated: case = 1-3 peers announcing (concurrently in half of the cases), some after a reconnect, over a connection writer that takes 0/0.1/0.3/2 ms per write and, per round drawn, parks the write of the NodeManagement subscription call, of the use-case read, of both or of neither until the case releases it; non-trivial if every DeviceChange/add reached both application handlers and the completion of the two writes was compared with the entry of the first application handler and with the return of HandleSpineMesssage. " +
 			"distinct = hash of operation kinds, targets, goroutine split and action slots.",
 		Assumptions: []string{
 			"a delivery is attributed to the core level if it ran on the goroutine that called Publish, else to the application level (only needed for the handler that is subscribed at both levels)",
@@ -62,6 +75,7 @@ func init() {
 			"'not delivered' is decided after the process is back at its baseline goroutine count (every go HandleEvent has finished), never after a sleep; if that is not reached within the watchdog the case is inconclusive",
 			"publishing from inside a core-level handler is not generated (the stack never does it; Publish holds its handling mutex there)",
 			"a publisher or handler that does not return parks the case for the parent's hang monitor (hang@<frame>)",
+			"integrated: 'the stack's internal handlers have finished' is observed through the two messages DeviceLocal.HandleEvent (the stack's core-level handler of DeviceChange/add) sends to the announcing peer: the handler has finished only when both connection writes have returned (sending is synchronous). 'before publication returns' is observed at the return of DeviceRemote.HandleSpineMesssage for the discovery reply, inside which the event is published. A parked write is released by the case at a logical point; the length of the hold never enters a verdict",
 			"mutual-wait stage: 'application handlers run asynchronously' includes 'with respect to each other': the delivery of an event to one application handler does not wait for another application handler of the same event to return. A handler's wait for another handler's entry is bounded by 5 s with nothing else pending in the process (Publish has started the later handler's goroutine before it returned); the verdict needs the expiry AND the logged order 'the awaited handler entered only after the waiting one had left'",
 		},
 		Parts: []rig.Part{
@@ -982,11 +996,41 @@ func (h *c15IntHandler) addsFor(ski string) []c15IntEv {
 
 // c15Writer is the connection writer of the integrated part: it records like rig.Tap (Seq taken when the
 // write is complete) and can be slow, like a congested connection, which widens the window between the
-// publication of DeviceChange/add and the end of the stack's own reaction.
+// publication of DeviceChange/add and the end of the stack's own reaction - or it does not return at all until the
+// case lets it: the write of the NodeManagement subscription call and/or of the use-case read (the two messages the
+// stack's own core-level handler of DeviceChange/add sends to the announcing peer) parks on a gate that the case
+// opens at a logical point of its script. While such a write is parked the core-level handler that issued it has
+// not returned, so the publication has not returned and no application-level handler of that event has started.
 type c15Writer struct {
-	mu    sync.Mutex
-	outs  []rig.Out
-	delay time.Duration
+	mu     sync.Mutex
+	outs   []rig.Out
+	starts []c15WriteStart
+	delay  time.Duration
+	gates  map[string]*c15WriteGate // "subscription-call" / "use-case-read" -> gate of the first such write
+}
+
+type c15WriteStart struct {
+	seq  int64
+	what string
+}
+
+type c15WriteGate struct {
+	g       *eGate
+	entered chan struct{} // closed when the write has been handed to the writer (and parks)
+	once    sync.Once
+}
+
+func c15WriteKind(d model.DatagramType) string {
+	if len(d.Payload.Cmd) != 1 || d.Header.CmdClassifier == nil {
+		return ""
+	}
+	switch cmd, cl := d.Payload.Cmd[0], *d.Header.CmdClassifier; {
+	case cl == model.CmdClassifierTypeCall && cmd.NodeManagementSubscriptionRequestCall != nil:
+		return "subscription-call"
+	case cl == model.CmdClassifierTypeRead && cmd.NodeManagementUseCaseData != nil:
+		return "use-case-read"
+	}
+	return ""
 }
 
 func (t *c15Writer) WriteShipMessageWithPayload(m []byte) {
@@ -994,12 +1038,36 @@ func (t *c15Writer) WriteShipMessageWithPayload(m []byte) {
 	if err := json.Unmarshal(m, &d); err != nil {
 		return
 	}
+	kind := c15WriteKind(d.Datagram)
+	t.mu.Lock()
+	t.starts = append(t.starts, c15WriteStart{rig.Seq(), kind})
+	gate := t.gates[kind]
+	t.mu.Unlock()
+	if gate != nil {
+		first := false
+		gate.once.Do(func() { first = true })
+		if first {
+			close(gate.entered)
+			gate.g.wait()
+		}
+	}
 	if t.delay > 0 {
 		time.Sleep(t.delay)
 	}
 	t.mu.Lock()
 	t.outs = append(t.outs, rig.Out{Seq: rig.Seq(), D: d.Datagram})
 	t.mu.Unlock()
+}
+
+func (t *c15Writer) startOf(kind string) int64 {
+	t.mu.Lock()
+	defer t.mu.Unlock()
+	for _, s := range t.starts {
+		if s.what == kind {
+			return s.seq
+		}
+	}
+	return 0
 }
 
 func (t *c15Writer) take() []rig.Out {
@@ -1028,31 +1096,78 @@ func c15Integrated(c *rig.Ctx) {
 	concurrent := r.Intn(2) == 0
 	rounds := make([]int, nPeers)
 	feats := []rig.FS{rig.NMFS, {Ent: []uint{1}, Id: 1, Typ: model.FeatureTypeTypeMeasurement, Role: model.RoleTypeServer}}
-	delay := []time.Duration{0, 100 * time.Microsecond, 300 * time.Microsecond}[r.Intn(3)]
+	delay := []time.Duration{0, 100 * time.Microsecond, 300 * time.Microsecond, 2 * time.Millisecond}[r.Intn(4)]
+	// per round: which writes of the stack's own reaction do not return until the case lets them
+	park := make([][]string, nPeers)
+	var gatesMu sync.Mutex
+	var allGates []*eGate
+	defer func() {
+		gatesMu.Lock()
+		defer gatesMu.Unlock()
+		for _, g := range allGates {
+			g.open()
+			if g.expiries() > 0 {
+				c.Inconclusive("a parked connection write was not released within 90s")
+			}
+		}
+	}()
+	newWriter := func(mode string) *c15Writer {
+		wr := &c15Writer{delay: delay, gates: map[string]*c15WriteGate{}}
+		for _, k := range []string{"subscription-call", "use-case-read"} {
+			if mode == k || mode == "both" {
+				g := &c15WriteGate{g: newEGate(90 * time.Second), entered: make(chan struct{})}
+				wr.gates[k] = g
+				gatesMu.Lock()
+				allGates = append(allGates, g.g)
+				gatesMu.Unlock()
+			}
+		}
+		return wr
+	}
 	writers := make([]*c15Writer, nPeers)
 	for i := 0; i < nPeers; i++ {
+		rounds[i] = 1 + r.Intn(2)
+		for rd := 0; rd < rounds[i]; rd++ {
+			park[i] = append(park[i], []string{"", "", "subscription-call", "use-case-read", "both"}[r.Intn(5)])
+		}
 		p := &rig.Peer{Ski: fmt.Sprintf("%s-ski%d", c.Tag(), i), Addr: fmt.Sprintf("dev%d", i), Tap: &rig.Tap{}, W: w, Ctr: uint64(i+1) * 100000}
-		writers[i] = &c15Writer{delay: delay}
+		writers[i] = newWriter(park[i][0])
 		w.Local.SetupRemoteDevice(p.Ski, writers[i])
 		p.RD = w.Local.RemoteDeviceForSki(p.Ski)
 		w.Peers = append(w.Peers, p)
-		rounds[i] = 1 + r.Intn(2)
+	}
+	type parkObs struct {
+		what                 string
+		entered              bool
+		opened               int64 // Seq when the gate was opened
+		appEntered, returned bool  // observed at the end of the hold, before the gate was opened
 	}
 	type roundObs struct {
 		peer, round int
-		outs        []rig.Out
+		wr          *c15Writer
 		announced   int64 // Seq before the announcement
+		returned    int64 // Seq right after HandleSpineMesssage returned for the discovery reply
+		parks       []parkObs
 	}
 	var mu sync.Mutex
 	var obs []roundObs
 	var trace []string
+	var aborted atomic.Bool
+	closed := func(ch <-chan struct{}) bool {
+		select {
+		case <-ch:
+			return true
+		default:
+			return false
+		}
+	}
 	run := func(i int) {
 		p := w.Peers[i]
-		for rd := 0; rd < rounds[i]; rd++ {
+		for rd := 0; rd < rounds[i] && !aborted.Load(); rd++ {
 			if rd > 0 {
 				if pan := eGuard(c, "reconnect", func() {
 					w.Local.RemoveRemoteDeviceConnection(p.Ski)
-					writers[i] = &c15Writer{delay: delay}
+					writers[i] = newWriter(park[i][rd])
 					w.Local.SetupRemoteDevice(p.Ski, writers[i])
 					p.RD = w.Local.RemoteDeviceForSki(p.Ski)
 				}); pan != "" {
@@ -1060,20 +1175,144 @@ func c15Integrated(c *rig.Ctx) {
 					return
 				}
 			}
+			wr := writers[i]
+			want := rd + 1
 			before := rig.Seq()
-			if pan := eGuard(c, "discovery reply", func() { p.Announce(feats) }); pan != "" {
-				c.Violate("integrated/announce-panics", "%s", pan)
+			// the discovery reply is delivered on a goroutine of its own (exactly one: the holds below compare the
+			// goroutine count with the baseline); HandleSpineMesssage does not return while a write is parked
+			returned := make(chan struct{})
+			var retSeq int64
+			var panicked string
+			go func() {
+				defer close(returned)
+				defer func() {
+					if x := recover(); x != nil {
+						panicked = fmt.Sprint(x)
+					}
+				}()
+				p.Announce(feats)
+				retSeq = rig.Seq()
+			}()
+			var parks []parkObs
+			var pending []string
+			for _, k := range []string{"subscription-call", "use-case-read"} {
+				if wr.gates[k] != nil {
+					pending = append(pending, k)
+				}
+			}
+			openAll := func() {
+				gatesMu.Lock()
+				defer gatesMu.Unlock()
+				for _, g := range allGates {
+					g.open()
+				}
+			}
+			enteredOne := func() int { // whichever of the round's parking writes has been handed to the writer
+				for j, k := range pending {
+					if closed(wr.gates[k].entered) {
+						return j
+					}
+				}
+				return -1
+			}
+			for len(pending) > 0 {
+				// wait until one of them has been handed to the writer. If the processing of the reply has returned
+				// without that, give the stack until the process is quiet (sequential cases) or a moment (concurrent ones)
+				deadline := time.Now().Add(30 * time.Second)
+				idx := enteredOne()
+				for idx < 0 {
+					if closed(returned) {
+						stable := 0
+						for t0 := time.Now(); enteredOne() < 0 && time.Since(t0) < 5*time.Second; time.Sleep(200 * time.Microsecond) {
+							if concurrent {
+								if time.Since(t0) > 20*time.Millisecond { // pacing only
+									break
+								}
+								continue
+							}
+							if runtime.NumGoroutine() > baseline {
+								stable = 0
+							} else if stable++; stable >= 5 {
+								break // the process is quiet: nobody is left who could still write it
+							}
+						}
+						idx = enteredOne()
+						break
+					}
+					if time.Now().After(deadline) {
+						c.Inconclusive("peer %d round %d: neither was any of %v handed to the connection writer nor did the processing of the discovery reply return within 30s", i, rd, pending)
+						aborted.Store(true)
+						openAll()
+						return
+					}
+					time.Sleep(100 * time.Microsecond)
+					idx = enteredOne()
+				}
+				if idx < 0 {
+					for _, k := range pending {
+						parks = append(parks, parkObs{what: k, opened: rig.Seq()})
+					}
+					break
+				}
+				k := pending[idx]
+				pending = append(pending[:idx], pending[idx+1:]...)
+				g := wr.gates[k]
+				po := parkObs{what: k, entered: true}
+				// HOLD: the write is parked inside the writer. Nothing the statement allows can happen now: the core-level
+				// handler has not returned. The hold only gives a deviating stack the opportunity to show itself (the
+				// verdicts below are on logged order, not on this wait): it ends when an application handler of the event
+				// has been entered or the processing has returned (the deviation is on the log), when the process is quiet
+				// except for the one goroutine parked in the write (sequential cases: nothing more can happen), or after a
+				// moment (concurrent cases).
+				stable, how := 0, "pacing-limit-of-2s"
+				for t0 := time.Now(); time.Since(t0) < 2*time.Second; time.Sleep(100 * time.Microsecond) {
+					if len(h1.addsFor(p.Ski)) >= want || len(h2.addsFor(p.Ski)) >= want || closed(returned) {
+						how = "deviation-on-the-log"
+						break
+					}
+					if concurrent {
+						if time.Since(t0) > 3*time.Millisecond {
+							how = "a-moment(concurrent-case)"
+							break
+						}
+						continue
+					}
+					if runtime.NumGoroutine() > baseline+1 {
+						stable = 0
+					} else if stable++; stable >= 5 {
+						how = "process-quiet-except-for-the-parked-write"
+						break
+					}
+				}
+				c.Count("integrated_hold_ended_by:"+how, 1)
+				po.appEntered = len(h1.addsFor(p.Ski)) >= want || len(h2.addsFor(p.Ski)) >= want
+				po.returned = closed(returned)
+				c.Count("integrated_writes_parked:"+k, 1)
+				po.opened = rig.Seq()
+				g.g.open()
+				parks = append(parks, po)
+			}
+			select {
+			case <-returned:
+			case <-time.After(30 * time.Second):
+				c.Inconclusive("peer %d round %d: the processing of the discovery reply did not return within 30s; parking for the hang monitor", i, rd)
+				openAll()
+				for {
+					time.Sleep(time.Hour)
+				}
+			}
+			if panicked != "" {
+				c.Violate("integrated/announce-panics", "%s", panicked)
 				return
 			}
 			if n := p.PanicCount(); n > 0 {
 				c.Violate("integrated/announce-panics", "%s", p.Panics[n-1])
 				return
 			}
-			// wait for the application-level delivery of this round before the connection is replaced
-			want := rd + 1
-			_ = rig.WaitFor(30*time.Second, func() bool { return len(h1.addsFor(p.Ski)) >= want }) // expiry is decided below on the goroutine baseline
+			// wait for the application-level deliveries of this round before the connection is replaced
+			_ = rig.WaitFor(30*time.Second, func() bool { return len(h1.addsFor(p.Ski)) >= want && len(h2.addsFor(p.Ski)) >= want }) // expiry is decided below on the goroutine baseline
 			mu.Lock()
-			obs = append(obs, roundObs{peer: i, round: rd, outs: writers[i].take(), announced: before})
+			obs = append(obs, roundObs{peer: i, round: rd, wr: wr, announced: before, returned: retSeq, parks: parks})
 			mu.Unlock()
 		}
 	}
@@ -1089,6 +1328,9 @@ func c15Integrated(c *rig.Ctx) {
 			run(i)
 		}
 	}
+	if aborted.Load() {
+		return
+	}
 	if !rig.WaitQuiet(baseline, 30*time.Second) {
 		c.Inconclusive("goroutine count did not return to its baseline (%d, now %d)", baseline, runtime.NumGoroutine())
 		return
@@ -1103,36 +1345,59 @@ func c15Integrated(c *rig.Ctx) {
 	for _, o := range obs {
 		p := w.Peers[o.peer]
 		id := fmt.Sprintf("peer %d (%s) round %d", o.peer, p.Ski, o.round)
-		adds := h1.addsFor(p.Ski)
-		if len(adds) <= o.round {
+		adds, adds2 := h1.addsFor(p.Ski), h2.addsFor(p.Ski)
+		if len(adds) <= o.round || len(adds2) <= o.round {
 			complete = false
 			continue // counted below as missing delivery
 		}
-		entry := adds[o.round].entry
+		// the earliest entry of an application-level handler for this event
+		entry, who := adds[o.round].entry, "application handler 1"
+		if adds2[o.round].entry < entry {
+			entry, who = adds2[o.round].entry, "application handler 2"
+		}
 		var subSeq, ucSeq int64
 		var lines []string
-		for _, out := range o.outs {
-			if len(out.D.Payload.Cmd) != 1 || out.D.Header.CmdClassifier == nil {
+		for _, out := range o.wr.take() { // everything this connection's writer completed until the process was quiet
+			switch k := c15WriteKind(out.D); {
+			case k == "subscription-call" && subSeq == 0:
+				subSeq = out.Seq
+			case k == "use-case-read" && ucSeq == 0:
+				ucSeq = out.Seq
+			}
+		}
+		subStart, ucStart := o.wr.startOf("subscription-call"), o.wr.startOf("use-case-read")
+		lines = append(lines, fmt.Sprintf("call nodeManagementSubscriptionRequestCall: handed to the writer at %d, write complete at %d", subStart, subSeq),
+			fmt.Sprintf("read nodeManagementUseCaseData: handed to the writer at %d, write complete at %d", ucStart, ucSeq))
+		var parked []string
+		for _, po := range o.parks {
+			if !po.entered {
+				parked = append(parked, fmt.Sprintf("the write of the %s was to be parked but was never handed to the writer", po.what))
 				continue
 			}
-			cmd := out.D.Payload.Cmd[0]
-			cl := *out.D.Header.CmdClassifier
-			switch {
-			case cl == model.CmdClassifierTypeCall && cmd.NodeManagementSubscriptionRequestCall != nil && subSeq == 0:
-				subSeq = out.Seq
-				lines = append(lines, fmt.Sprintf("%d call nodeManagementSubscriptionRequestCall", out.Seq))
-			case cl == model.CmdClassifierTypeRead && cmd.NodeManagementUseCaseData != nil && ucSeq == 0:
-				ucSeq = out.Seq
-				lines = append(lines, fmt.Sprintf("%d read nodeManagementUseCaseData", out.Seq))
+			parked = append(parked, fmt.Sprintf("the write of the %s was parked inside the connection writer until %d; at the end of the hold: application handler entered=%v, processing of the discovery reply returned=%v", po.what, po.opened, po.appEntered, po.returned))
+			if !po.appEntered && !po.returned {
+				c.Count("integrated_parked_writes:neither-application-handler-nor-return-while-parked", 1)
 			}
 		}
-		c.Events(2)
-		trace = append(trace, fmt.Sprintf("%s: announced>%d subscription call@%d use-case read@%d application handler of DeviceChange/add entered@%d", id, o.announced, subSeq, ucSeq, entry))
+		c.Events(4)
+		trace = append(trace, fmt.Sprintf("%s: announced>%d subscription call@%d..%d use-case read@%d..%d %s of DeviceChange/add entered@%d HandleSpineMesssage returned@%d %v", id, o.announced, subStart, subSeq, ucStart, ucSeq, who, entry, o.returned, parked))
+		ctx := fmt.Sprintf("\n writes: %v\n %s", lines, strings.Join(parked, "\n "))
+		// (1) core first: the stack's own core-level handler of DeviceChange/add (DeviceLocal.HandleEvent: subscription call
+		// and use-case read to the announcing peer) has FINISHED - both writes have returned - before any application-level
+		// handler of that event is entered
 		if subSeq == 0 || subSeq > entry {
-			c.Violate("integrated/subscription-call-not-written-before-application-handler", "%s: application handler of DeviceChange/add entered at %d; NodeManagement subscription call on the tap: %d (0 = never)\n tap: %v", id, entry, subSeq, lines)
+			c.Violate("integrated/subscription-call-not-written-before-application-handler", "%s: %s of DeviceChange/add entered at %d; NodeManagement subscription call on the tap: %d (0 = never)%s", id, who, entry, subSeq, ctx)
 		}
 		if ucSeq == 0 || ucSeq > entry {
-			c.Violate("integrated/use-case-read-not-written-before-application-handler", "%s: application handler of DeviceChange/add entered at %d; use-case read on the tap: %d (0 = never)\n tap: %v", id, entry, ucSeq, lines)
+			c.Violate("integrated/use-case-read-not-written-before-application-handler", "%s: %s of DeviceChange/add entered at %d; use-case read on the tap: %d (0 = never)%s", id, who, entry, ucSeq, ctx)
+		}
+		// (2) ... and before the publication returns: the publication happens while the discovery reply is processed, so
+		// when HandleSpineMesssage has returned for that reply the publication has returned
+		if subSeq == 0 || subSeq > o.returned {
+			c.Violate("integrated/subscription-call-not-written-when-processing-of-the-discovery-reply-returned", "%s: HandleSpineMesssage returned at %d; NodeManagement subscription call on the tap: %d (0 = never)%s", id, o.returned, subSeq, ctx)
+		}
+		if ucSeq == 0 || ucSeq > o.returned {
+			c.Violate("integrated/use-case-read-not-written-when-processing-of-the-discovery-reply-returned", "%s: HandleSpineMesssage returned at %d; use-case read on the tap: %d (0 = never)%s", id, o.returned, ucSeq, ctx)
 		}
 	}
 	for i, p := range w.Peers {
@@ -1151,10 +1416,10 @@ func c15Integrated(c *rig.Ctx) {
 		}
 	}
 	if c.Failed() {
-		c.Witness(map[string]any{"peers": nPeers, "rounds": rounds, "concurrent": concurrent, "trace": trace})
+		c.Witness(map[string]any{"peers": nPeers, "rounds": rounds, "concurrent": concurrent, "parked_writes": park, "trace": trace})
 	}
-	c.Shape(fmt.Sprintf("peers=%d rounds=%v concurrent=%v writer-delay=%s", nPeers, rounds, concurrent, delay))
+	c.Shape(fmt.Sprintf("peers=%d rounds=%v concurrent=%v writer-delay=%s parked=%v", nPeers, rounds, concurrent, delay, park))
 	c.NonTrivial(complete && len(obs) > 0)
 	c.Count("integrated_rounds", int64(len(obs)))
-	c.Sample(map[string]any{"peers": nPeers, "rounds": rounds, "concurrent": concurrent, "trace": trace})
+	c.Sample(map[string]any{"peers": nPeers, "rounds": rounds, "concurrent": concurrent, "writer_delay": delay.String(), "parked_writes": park, "trace": trace})
 }
